@@ -496,7 +496,33 @@ func (c *Client) TxSearch(
 	page, perPage *int,
 	orderBy string,
 ) (*ctypes.ResultTxSearch, error) {
-	return c.next.TxSearch(ctx, query, prove, page, perPage, orderBy)
+	res, err := c.next.TxSearch(ctx, query, prove, page, perPage, orderBy)
+	if err != nil || !prove {
+		return res, err
+	}
+
+	// Verify every returned transaction against the header of the height it names.
+	// NOTE: that the result set is complete (and TotalCount) cannot be verified.
+	for i, tx := range res.Txs {
+		if tx == nil {
+			return nil, fmt.Errorf("nil tx %d", i)
+		}
+		if tx.Height <= 0 {
+			return nil, errNegOrZeroHeight
+		}
+		l, err := c.updateLightClientIfNeededTo(ctx, &tx.Height)
+		if err != nil {
+			return nil, err
+		}
+		if err := tx.Proof.Validate(l.DataHash); err != nil {
+			return nil, fmt.Errorf("tx %d: %w", i, err)
+		}
+		if !bytes.Equal(tx.Proof.Data, tx.Tx) || !bytes.Equal(tx.Tx.Hash(), tx.Hash) {
+			return nil, fmt.Errorf("tx %d: proof is for a different transaction than the one returned", i)
+		}
+	}
+
+	return res, nil
 }
 
 func (c *Client) BlockSearch(
